@@ -168,6 +168,7 @@ def freq_targets(f, tier):
         ("single", np.array([0.5 * (f[len(f) // 2 - 1] + f[len(f) // 2])])),
         ("all-above", np.array([1.2 * hi, 1.5 * hi])),
         ("all-below", np.array([0.3 * lo, 0.6 * lo])),
+        ("nearly-same", stored * (1.0 + 4e-6)),  # same size and order, a few ppm off: still a different grid
     ]
     if tier == "thorough":
         out += [
@@ -218,6 +219,7 @@ def dir_targets(stored, tier):
         ("coarser", u[::2].copy()),
         ("seam", np.array(SEAM)),
         ("desc", u[::-1].copy()),
+        ("nearly-same", stored * (1.0 - 2e-6)),
     ]
     if not np.array_equal(stored, u):
         out.append(("sorted", u.copy()))
@@ -799,7 +801,7 @@ def run(rep, tier, seed, parts=None):
     rep.rule = (
         "sources = 3 (thorough 4) frequency families (log <0.333 Hz, linear ending >0.333 Hz, irregular) x direction circles nd in {4,8} "
         "(thorough + 6) stored ascending / every rotation of the stored order / descending / with a duplicated 0-and-360 bin (duplicate "
-        "holds the same data); targets = frequency sets {unchanged, same, coarser, finer, shifted, reaching below, reaching above, both, "
+        "holds the same data); targets = frequency sets {unchanged, same, the same grid a few ppm off, coarser, finer, shifted, reaching below, reaching above, both, "
         "single value, all above, all below} x direction sets {unchanged, same as stored, half-bin finer, half-bin shifted, coarser, "
         "[350,355,0,5,10], descending, ascending} x maintain_m0 {False, True}; spectra = all-zero + constants + every impulse + every "
         "impulse pair with every height pair + ramps + checkerboards of a 3-value alphabet, batched along a leading dimension; full "
